@@ -503,7 +503,12 @@ func c03Getters(p *packet.Packet, m *ref.Packet, tol bool, saw *bool) *hx.Failur
 		if fterr != nil || !bytes.Equal(ftv, *a.TPD) {
 			return hx.Failf("getter-tpd-func", "adaptationfield.TransportPrivateData = (%x, %v), want %x", ftv, fterr, []byte(*a.TPD))
 		}
-		if eerr != nil || !bytes.Equal(ebp, *a.TPD) {
+		// the boundary point is "present" when the private data carries one: for private data that does not start with an EBP
+		// tag (0xDF CableLabs, 0xA9 Comcast), or is not one complete descriptor, the accessor may hand out the private data as it is or report the EBP as absent
+		ebpShaped := c03EBPShaped(*a.TPD)
+		if eerr != nil && !ebpShaped {
+			// absent
+		} else if eerr != nil || !bytes.Equal(ebp, *a.TPD) {
 			return hx.Failf("getter-ebp-func", "adaptationfield.EncoderBoundaryPoint = (%x, %v), want %x", ebp, eerr, []byte(*a.TPD))
 		}
 		if terr != nil || !bytes.Equal(tv, *a.TPD) {
@@ -778,4 +783,18 @@ func TestC03Exhaustive(t *testing.T) {
 func FuzzC03(f *testing.F) {
 	c03Rule()
 	f.Fuzz(propC03.Fuzz())
+}
+
+// c03EBPShaped: the private data is exactly one complete, non-empty EBP descriptor of either flavour.
+func c03EBPShaped(d []byte) bool {
+	if len(d) < 3 || int(d[1]) != len(d)-2 {
+		return false
+	}
+	switch d[0] {
+	case 0xA9:
+		return true
+	case 0xDF:
+		return len(d) >= 7 && string(d[2:6]) == "EBP0"
+	}
+	return false
 }
